@@ -29,8 +29,8 @@ type c09Case struct {
 }
 
 // shape catalogue: body of type number self with targets b, c
-const c09Shapes = 18
-const c09RootKinds = 6
+const c09Shapes = 19
+const c09RootKinds = 7
 
 func c09Shape(k int, self int, b, c string) (*model.Node, int) {
 	q := fmt.Sprintf("q%d", self)
@@ -69,6 +69,9 @@ func c09Shape(k int, self int, b, c string) (*model.Node, int) {
 	case 15:
 		// EMPTY object whose additionalProperties names a type
 		return model.Obj().With(model.RStr("additionalProperties", b)), 1
+	case 18:
+		// an EXPLICITLY required property: the only required form under KeysAreOptionalByDefault
+		return model.Obj(model.P("p", model.Ref(b).With(model.RBool("optional", false)))), 1
 	case 16:
 		// inheriting object WITHOUT a required key of its own (a middle link of an allOf chain)
 		return model.Obj(model.P(q, model.Int("1").With(model.RBool("optional", true)))).With(model.RAllOf(b)), 1
@@ -126,7 +129,18 @@ func c09Build(n int, bodies []c09Body, rootKind int) *model.Schema {
 		s.Types = append(s.Types, &model.TypeDef{Name: fmt.Sprintf("@t%d", i), Root: root})
 	}
 	s.Types = append(s.Types, &model.TypeDef{Name: "@k", Root: model.Str("kk").With(model.RStr("regex", "^k"))})
+	if rootKind == 6 {
+		// a LITERAL example declaring {type: "@t0"}: possible when every type is an integer leaf,
+		// an alias or a union of such (the example 1 is then a value of every inhabited type)
+		for i := 0; i < n; i++ {
+			if sh := bodies[i].shape; sh != 0 && sh != 5 && sh != 6 {
+				rootKind = 1
+			}
+		}
+	}
 	switch rootKind {
+	case 6:
+		s.Root = model.Obj(model.P("x", model.Int("1").With(model.RStr("type", "@t0"))))
 	case 0:
 		s.Root = model.Ref("@t0")
 	case 1:
@@ -313,17 +327,57 @@ func c09TwoTypeWitness(c *mon.Ctx) {
 
 // c09Judge runs one graph in both registration configurations: types added to the root only,
 // and every type added to every other type as well.
+// c09Reachable keeps the types the root reaches through references (transitively).
+func c09Reachable(s *model.Schema) *model.Schema {
+	keep := map[string]bool{}
+	var visit func(n *model.Node)
+	visit = func(n *model.Node) {
+		for _, name := range model.ReferencedTypes(n) {
+			if keep[name] {
+				continue
+			}
+			keep[name] = true
+			if t := s.Type(name); t != nil && t.Root != nil {
+				visit(t.Root)
+			}
+		}
+	}
+	visit(s.Root)
+	out := &model.Schema{Root: s.Root, Enums: s.Enums, OptKeys: s.OptKeys}
+	for _, t := range s.Types {
+		if keep[t.Name] {
+			out.Types = append(out.Types, t)
+		}
+	}
+	return out
+}
+
+const c09ChainClass = " (each schema receives only the types it names)"
+
 func c09Judge(c *mon.Ctx, s *model.Schema, class string, sample bool) {
 	c09JudgeCfg(c, s, class, sample, false, false)
 	c09JudgeCfg(c, s, class+" (types added to every type)", false, true, false)
 	// the same type objects were first given (every second one) to another root which was checked
 	c09JudgeCfg(c, s, class+" (another root over the same type objects checked first)", false, false, true)
+	// every schema receives exactly the types its own text names
+	c09JudgeCfg(c, s, class+c09ChainClass, false, false, false)
+	// KeysAreOptionalByDefault: only explicitly required properties keep a cycle illegal
+	if !s.OptKeys {
+		so := *s
+		so.OptKeys = true
+		c09JudgeCfg(c, &so, class+" (keys optional by default)", false, false, false)
+	}
 }
 
 func c09JudgeCfg(c *mon.Ctx, s *model.Schema, class string, sample bool, fullReg, preRoot bool) {
 	sp := specOf(s, model.Style{})
 	sp.FullReg = fullReg
 	sp.PreRoot = preRoot
+	sp.ChainReg = strings.HasSuffix(class, c09ChainClass)
+	if sp.ChainReg {
+		// only the types reachable from the root text are part of the schema then
+		s = c09Reachable(s)
+	}
 	want, why := model.RecursionVerdict(s)
 	if fullReg && why == model.KnownTwoTypeRecursion {
 		why = "root has no finite inhabitant along required references (every type sees every type)"
